@@ -105,9 +105,29 @@ def _materialize_generators(ctx, args):
     return out
 
 
+def _protocol_owner(ctx, args, name):
+    """the first argument that is an instance of a repository class defining `name` (numpy's dispatch protocols)"""
+    for a in args:
+        if isinstance(a, Ref) and isinstance(ctx.cell(a), HObj):
+            f, _ = ctx.cell(a).cls.lookup(name)
+            if f is not None:
+                return a, f
+    return None, None
+
+
 def call_ext(ctx, fn, args, kwargs):
     args = _materialize_generators(ctx, args)
     obj = fn.obj
+    if isinstance(obj, np.ufunc):
+        # numpy hands a ufunc call with an operand that defines __array_ufunc__ over to that method
+        owner, f = _protocol_owner(ctx, args, "__array_ufunc__")
+        if owner is not None:
+            return ctx.call(BoundMethod(f, owner), [fn, "__call__"] + list(args), dict(kwargs))
+    elif getattr(obj, "__module__", None) and str(getattr(obj, "__module__", "")).startswith("numpy") and callable(obj) and not isinstance(obj, type):
+        owner, f = _protocol_owner(ctx, args, "__array_function__")
+        if owner is not None:
+            types = tuple({ctx.cell(a).cls.name: ctx.cell(a).cls for a in args if isinstance(a, Ref) and isinstance(ctx.cell(a), HObj)}.values())
+            return ctx.call(BoundMethod(f, owner), [fn, types, tuple(args), ctx.new_dict(dict(kwargs))], {})
     model = EXT_MODELS.get(_key(obj))
     if model is not None:
         r = model(ctx, args, kwargs)
@@ -766,6 +786,24 @@ def bi_zip(ctx, args, kw):
     return tuple(zip(*seqs))
 
 
+def bi_map(ctx, args, kw):
+    """map(f, *iterables): a lazy iterator -- f is applied when something iterates over the result (all elements at that moment)"""
+    f, seqs = args[0], list(args[1:])
+
+    def thunk():
+        cols = [ctx.iterate(s) for s in seqs]
+        return [ctx.call(f, list(row), {}) for row in zip(*cols)]
+    return ctx.alloc(HGen(thunk))
+
+
+def bi_filter(ctx, args, kw):
+    f, seq = args
+
+    def thunk():
+        return [x for x in ctx.iterate(seq) if ctx.truthy(x if f is None else ctx.call(f, [x], {}))]
+    return ctx.alloc(HGen(thunk))
+
+
 def bi_sum(ctx, args, kw):
     items = ctx.iterate(args[0])
     acc = args[1] if len(args) > 1 else 0
@@ -973,7 +1011,7 @@ def install(world):
 # of them must go to the intrinsic: route by identity
 _TYPE_CALLS = {int: bi_int, float: bi_float, str: bi_str, bool: bi_bool, list: bi_list, dict: bi_dict,
                tuple: bi_tuple, set: bi_set, range: bi_range, enumerate: bi_enumerate, zip: bi_zip,
-               type: bi_type}
+               type: bi_type, map: bi_map, filter: bi_filter}
 for _t, _f in _TYPE_CALLS.items():
     EXT_MODELS[_t] = _f
 
@@ -996,7 +1034,15 @@ def get_attr(ctx, o, name, default=NotImplemented):
             if name == "__class__":
                 return c.cls
             if name == "__dict__":
-                raise U()("__dict__ access")
+                # the instance dictionary: a dict cell that IS the object's field map (writes through it are writes to the object)
+                c = ctx.wcell(o, "__dict__")
+                ref = getattr(c, "dict_ref", None)
+                if ref is None or ctx.cell(ref).d is not c.fields:
+                    hd = HDict(c.fields)
+                    hd.owner = o
+                    ref = ctx.alloc(hd)
+                    c.dict_ref = ref
+                return ref
             a, owner = c.cls.lookup(name)
             if owner is not None:
                 if isinstance(a, FuncVal):
@@ -1091,7 +1137,10 @@ def get_attr(ctx, o, name, default=NotImplemented):
         if o.k == "str" and name in STR_METHODS:
             return SpecFn("str." + name, lambda cx, a, k, _o=o, _n=name: STR_METHODS[_n](cx, _o, a, k))
         if o.k in ("real", "int") and name == "astype":
-            return SpecFn("astype", lambda cx, a, k, _o=o: bi_float(cx, [_o], {}) if a and isinstance(a[0], Ext) and a[0].obj is float else _o)
+            return SpecFn("astype", lambda cx, a, k, _o=o: bi_float(cx, [_o], {}) if a and isinstance(a[0], Ext) and a[0].obj is float
+                          else (bi_int(cx, [_o], {}) if a and isinstance(a[0], Ext) and a[0].obj is int else _o))
+        if o.k in ("real", "int", "bool") and name in ("tolist", "item"):
+            return SpecFn(name, lambda cx, a, k, _o=o: _o)    # numpy scalar -> the Python scalar of the same value
         return missing()
     if isinstance(o, str):
         if name in STR_METHODS:
